@@ -260,12 +260,12 @@ func tail(s string, n int) string {
 type batchSizes struct{ quick, thorough int }
 
 var sizes = map[string]batchSizes{
-	"C02": {320, 40000},
-	"C07": {1200, 150000},
-	"C08": {400, 30000},
-	"C09": {600, 60000},
-	"C10": {400, 40000},
-	"C20": {320, 40000},
+	"C02": {6000, 400000},
+	"C07": {12000, 800000},
+	"C08": {1200, 40000},
+	"C09": {8000, 500000},
+	"C10": {6000, 400000},
+	"C20": {5000, 300000},
 }
 
 type runOutcome struct {
